@@ -390,3 +390,81 @@ Proof.
     set (x := ((1 - p) / f)%Q) in *. set (y := ((1 - p') / f)%Q) in *. nra.
   - exfalso. apply Qle_bool_iff in E'. assert (Qle_bool (1 - p) f = true); [apply Qle_bool_iff; lra|congruence].
 Qed.
+
+(* ------------------------------------------------------------------ a callback stop: no train() at or after it *)
+Theorem no_train_at_or_after_stop m n_envs total stop : 0 < n_envs -> forall lens num,
+  Forall (fun s => (1 <= s)%nat) lens ->
+  let r := loop m n_envs total stop lens num in
+  snd r = true -> Forall (fun e => fst e < snd (fst r)) (fst (fst r)).
+Proof.
+  intros Hn. induction lens as [|s rest IH]; intros num Hl; cbn zeta; [discriminate|].
+  inversion Hl as [|? ? Hs Hrest]; subst. rewrite loop_cons.
+  destruct (num <? total); [|discriminate].
+  destruct (collect s n_envs num stop) as [num' cont] eqn:EC. destruct cont.
+  - specialize (IH num' Hrest). cbn zeta in IH.
+    destruct (loop m n_envs total stop rest num') as [[l fin] st] eqn:EL. cbn [fst snd] in *.
+    intros Hst. specialize (IH Hst). apply Forall_app. split; [|exact IH].
+    assert (num' < fin).
+    { clear IH. destruct rest as [|s2 rest2]; [cbn in EL; inversion EL; subst; discriminate|].
+      rewrite loop_cons in EL. destruct (num' <? total); [|inversion EL; subst; discriminate].
+      destruct (collect s2 n_envs num' stop) as [n2 c2] eqn:EC2.
+      destruct (collect_advance _ _ _ _ _ _ EC2) as (j & Hj & Hn2 & Hc & Hc').
+      inversion Hrest as [|? ? Hs2 Hrest2]; subst.
+      destruct c2.
+      - specialize (Hc eq_refl). subst j.
+        pose proof (loop_increasing m n_envs total stop Hn rest2 (num' + Z.of_nat s2 * n_envs) Hrest2) as L2. cbn zeta in L2.
+        destruct (loop m n_envs total stop rest2 (num' + Z.of_nat s2 * n_envs)) as [[l2 f2] st2]. cbn [fst snd] in *.
+        inversion EL; subst. nia.
+      - inversion EL; subst. specialize (Hc' eq_refl). nia. }
+    destruct m; cbn [train_event].
+    + constructor; [cbn [fst]; lia|constructor].
+    + destruct (_ && _); [constructor; [cbn [fst]; lia|constructor]|constructor].
+  - intros _. constructor.
+Qed.
+
+(* the loops break exactly when the rollout was stopped (regenerated tests) *)
+Lemma frag_breaks c : on_break_after_stop c = negb c /\ off_break_after_stop c = negb c /\ ppo_epoch_break c = negb c.
+Proof. repeat split; reflexivity. Qed.
+
+(* ------------------------------------------------------------------ PPO.train / A2C.train: optimizer steps per train() *)
+Lemma frag_ppo_train n_epochs batch hk a t n :
+  ppo_epoch_range n_epochs = n_epochs /\ ppo_epoch_iter = 1 /\ ppo_get_batch batch = batch /\ a2c_get_batch = 1 /\
+  ppo_kl_stop hk a t = (hk && negb (Qle_bool a ((3 # 2) * t))) /\ ppo_kl_sets_continue = false /\ ppo_continue_init = true /\
+  ppo_n_updates n = n + 1 /\ a2c_n_updates n = n + 1.
+Proof. repeat split; reflexivity. Qed.
+
+Lemma ppo_minibatches_nostop kl : forall js, (forall j, kl j = false) -> ppo_minibatches js kl = (length js, true).
+Proof. intros js H. induction js as [|j js IH]; [reflexivity|]. cbn [ppo_minibatches length]. rewrite H, IH. reflexivity. Qed.
+
+Lemma ppo_minibatches_le kl : forall js, (fst (ppo_minibatches js kl) <= length js)%nat.
+Proof.
+  induction js as [|j js IH]; [cbn; lia|]. cbn [ppo_minibatches length]. destruct (kl j); [cbn; lia|].
+  destruct (ppo_minibatches js kl) as [n c]. cbn [fst] in *. lia.
+Qed.
+
+(* without early stop: n_epochs * k optimizer steps and n_epochs increments of _n_updates; with any early-stop behaviour: at most that,
+   and the epoch in which the stop happens is the last one *)
+Theorem ppo_train_steps n_epochs k kl :
+  ((forall e j, kl e j = false) -> ppo_train n_epochs k kl = ((n_epochs * k)%nat, n_epochs)) /\
+  (fst (ppo_train n_epochs k kl) <= n_epochs * k)%nat /\ (snd (ppo_train n_epochs k kl) <= n_epochs)%nat.
+Proof.
+  unfold ppo_train. generalize 0%nat as s. induction n_epochs as [|E IH]; intros s; cbn [seq ppo_epochs].
+  - repeat split; cbn; lia.
+  - destruct (IH (S s)) as (A & B & C). split; [|split].
+    + intros H. rewrite ppo_minibatches_nostop by (intros j; apply H). rewrite (A H). rewrite seq_length. f_equal; lia.
+    + pose proof (ppo_minibatches_le (kl s) (seq 0 k)) as L. rewrite seq_length in L.
+      destruct (ppo_minibatches (seq 0 k) (kl s)) as [n c]. destruct c.
+      * destruct (ppo_epochs (seq (S s) E) k kl) as [n' u']. cbn [fst] in *. lia.
+      * cbn [fst] in *. lia.
+    + destruct (ppo_minibatches (seq 0 k) (kl s)) as [n c]. destruct c.
+      * destruct (ppo_epochs (seq (S s) E) k kl) as [n' u']. cbn [snd] in *. lia.
+      * cbn [snd]. lia.
+Qed.
+
+(* link to the minibatch slicing of get() (C05's model) and to on_train_steps *)
+Theorem ppo_train_is_on_train_steps n_epochs N b : (1 <= b)%nat ->
+  Z.of_nat (n_epochs * length (minibatches b (seq 0 N))) = on_train_steps (Z.of_nat n_epochs) (Z.of_nat N) (Z.of_nat b).
+Proof.
+  intros Hb. rewrite minibatch_count by exact Hb. rewrite seq_length. unfold on_train_steps.
+  rewrite Nat2Z.inj_mul. f_equal. rewrite Nat2Z.inj_div. f_equal. lia.
+Qed.
